@@ -48,18 +48,28 @@ def make_problem(r, degenerate=False):
     return X, init
 
 
-def new_machine(em, init, cap, thr, sw, trainer="ml", prior=None, rel=4.0, alpha=0.5, cthr=None, floors=None):
+def new_machine(em, init, cap, thr, sw, trainer="ml", prior=None, rel=4.0, alpha=0.5, cthr=None, floors=None, switched=False):
+    """switched: the machine is built as the OTHER trainer kind and given its kind afterwards through set_params."""
     um, uv, uw = sw
     kw = dict(max_fitting_steps=cap, convergence_threshold=thr, update_means=um, update_variances=uv, update_weights=uw)
     if cthr is not None:
         kw["mean_var_update_threshold"] = cthr
     C = len(init["weights"])
     if trainer == "map":
-        m = em.GMMMachine(C, trainer="map", ubm=prior, map_relevance_factor=rel, map_alpha=alpha, **kw)
+        m = em.GMMMachine(C, trainer="ml" if switched else "map", ubm=prior, map_relevance_factor=rel, map_alpha=alpha, **kw)
+        if switched:
+            m.set_params(trainer="map")
         if floors is not None:
             m.variance_thresholds = np.array(floors, dtype=float) if np.ndim(floors) else float(floors)
     else:
-        m = em.GMMMachine(C, **kw)
+        if switched:
+            other = em.GMMMachine(C)
+            other.means = np.array(init["means"], dtype=float) + 5.0
+            other.variances = np.array(init["variances"], dtype=float) * 2.0
+            m = em.GMMMachine(C, trainer="map", ubm=other, **kw)
+            m.set_params(trainer="ml")
+        else:
+            m = em.GMMMachine(C, **kw)
         if floors is not None:
             m.variance_thresholds = np.array(floors, dtype=float) if np.ndim(floors) else float(floors)
         m.weights = np.array(init["weights"], dtype=float)
@@ -112,13 +122,14 @@ def floor_active(m_prev, m_next, X):
     return bool(np.any(np.asarray(st.n) < max(float(m_prev.mean_var_update_threshold), 1e-12) * 10))
 
 
-def trajectory(em, X, init, cap, sw, objective, chunks=None, trainer="ml", prior=None, rel=4.0, cthr=None, floors=None):
+def trajectory(em, X, init, cap, sw, objective, chunks=None, trainer="ml", prior=None, rel=4.0, cthr=None, floors=None,
+               switched=False):
     """Machines after 0..cap iterations (threshold None) and the objective after each."""
-    ms = [new_machine(em, init, 1, None, sw, trainer, prior, rel, cthr=cthr, floors=floors)]
+    ms = [new_machine(em, init, 1, None, sw, trainer, prior, rel, cthr=cthr, floors=floors, switched=switched)]
     if trainer == "map":
         ms[0].initialize_gaussians()
     for k in range(1, cap + 1):
-        ms.append(fit(new_machine(em, init, k, None, sw, trainer, prior, rel, cthr=cthr, floors=floors), X, chunks))
+        ms.append(fit(new_machine(em, init, k, None, sw, trainer, prior, rel, cthr=cthr, floors=floors, switched=switched), X, chunks))
     return ms, [objective(m) for m in ms]
 
 
